@@ -1124,7 +1124,17 @@ impl<E: Effect> Environment<E> {
         if let Some(pending) = self.pending_awaits.get_mut(&awaiter) {
             // This is part of an initial await - collect the response
             if let Some(worker_id) = sender_worker_id {
-                pending.responses.insert(worker_id, results.clone());
+                // Merge into what this worker has already reported rather than replacing it: a
+                // later completion from the same worker can arrive while another worker's answer
+                // is still outstanding, and must not discard the results of the first answer.
+                // A completion already reported is never downgraded by a later "not yet".
+                let collected = pending.responses.entry(worker_id).or_default();
+                for (pid, result) in &results {
+                    let already_completed = matches!(collected.get(pid), Some(Some(_)));
+                    if result.is_some() || !already_completed {
+                        collected.insert(*pid, result.clone());
+                    }
+                }
                 pending.expected_workers.remove(&worker_id);
 
                 // Check if all workers have responded
